@@ -19,11 +19,14 @@ From Cedar Require Import Lang.Value Lang.Expr Impl.Eval Impl.TypeCheck Lang.Typ
    the capabilities e establishes when true), or fails with one of the three allowed error kinds: never a type error, an unknown
    function / arity error, or a missing attribute or tag.
    schema_wf / tenv_wf: record types in the schema have distinct keys, the empty name is not an entity type.
+   agraph_wf: the action graph of the resolved schema lists declared actions only, and `Action` is not also an entity type name.
    keys_small: attribute names shorter than 10^39 bytes (an artifact of the model's capability keys, see TypeSoundProofs.v).
-   actions_closed: the parents of an action entity have the action's own entity type. *)
-Theorem C15_strict_sound : forall sch tv e, schema_wf sch -> tenv_wf sch tv -> keys_small e = true ->
+   env_ok, actions_conform, store_types_known: the request and the store CONFORM to the schema, as Validator.Request / Validator.Entity
+   decide it (entities of declared types: parents, attributes, tags; enumerated entities: bare; action entities: parents = the closure
+   of their declared groups; no entity of an unknown type). *)
+Theorem C15_strict_sound : forall sch tv e, schema_wf sch -> tenv_wf sch tv -> agraph_wf sch -> keys_small e = true ->
   forall caps t caps', typeof true sch tv e caps = TOk t caps' ->
-  forall en, env_ok sch tv en -> actions_closed sch (e_store en) -> caps_hold en caps ->
+  forall en, env_ok sch tv en -> actions_conform sch (e_store en) -> store_types_known sch (e_store en) -> caps_hold en caps ->
     match eval en e with
     | Ok v => vtyped v t /\ (v = VBool true -> caps_hold en caps')
     | Err k => allowed_error k = true
@@ -44,14 +47,12 @@ Theorem C15_permissive_refuted : exists sch tv e t caps en,
   typeof false sch tv e [] = TOk t caps /\ env_ok sch tv en /\ (exists k, eval en e = Err k /\ allowed_error k = false).
 Proof. exact permissive_unsound. Qed.
 
-(* the store hypothesis of C15_strict_sound is needed by the model as it stands *)
-Theorem C15_strict_needs_store_hypothesis : exists sch tv e t caps en,
-  schema_wf sch /\ tenv_wf sch tv /\ keys_small e = true /\
-  typeof true sch tv e [] = TOk t caps /\ env_ok sch tv en /\ (exists k, eval en e = Err k /\ allowed_error k = false).
-Proof. exact strict_needs_actions_closed. Qed.
+(* conformance of action entities cannot be dropped: a store that Validator.Entity rejects (an action with a parent its schema does
+   not declare) makes an accepted expression fail with a type error *)
+Definition C15_strict_needs_action_conformance := strict_needs_action_conformance.
 
 Print Assumptions C15_strict_sound.
 Print Assumptions C15_strict_sound_in_free.
 Print Assumptions C15_types_well_formed.
 Print Assumptions C15_permissive_refuted.
-Print Assumptions C15_strict_needs_store_hypothesis.
+Print Assumptions C15_strict_needs_action_conformance.
